@@ -46,6 +46,18 @@ impl RuntimeState {
         self.ping_timeout = None;
     }
 
+    /// Give one slot of the broker's Receive Maximum back after a publish was resolved.
+    ///
+    /// `inflight` are the publishes still unresolved. After a resume with a smaller Receive
+    /// Maximum there can be more of them than the window allows: the quota stays at zero until
+    /// enough of them are resolved.
+    pub(super) fn release_send_quota(&mut self, inflight: u16) {
+        self.send_quota = self
+            .send_quota
+            .saturating_add(1)
+            .min(self.max_send_quota.saturating_sub(inflight));
+    }
+
     pub(super) fn note_outbound_activity(&mut self, now: Instant) {
         self.next_ping = self
             .keepalive_send_interval()
